@@ -67,6 +67,11 @@ def extract():
     for k in ("panicCode", "saturationCode"):
         if f[k] not in CODE_FIELD: raise ExtractError(f"unknown ErrorCode::{f[k]}")
     rd = fn_body(srv, "reader_task")
+    # no timer / sleep / timeout / retry arm in the read loop or in spawn_off_reader (there is none today): one that
+    # appears could end the connection or delay a refusal on a stalled peer -> pessimistic
+    TIMER = r"tokio::time::|\bsleep\(|\btimeout\(|timeout_at\(|\binterval\(|Instant::now|\bretry|Duration::"
+    if re.search(TIMER, rd) or re.search(TIMER, body):
+        f["saturationNeverWaits"] = False
     if not (re.search(r"match handler\.execution\(\)\s*\{", rd) and re.search(r"Execution::OffReader\s*=>", rd) and "spawn_off_reader(" in rd):
         raise ExtractError("reader_task: dispatch by execution mode not recognised")
 
